@@ -109,8 +109,28 @@ func main() {
 		// controlled scheduler, whose hand-offs hide races from the detector)
 		engine.IsolateStdio()
 		n := 0
-		for _, sc := range c12All("thorough") {
-			for th := 1; th <= 16; th++ {
+		id, only := "C12", ""
+		if len(os.Args) > 2 {
+			id = os.Args[2]
+		}
+		if len(os.Args) > 3 {
+			only = os.Args[3]
+		}
+		var scs []Scenario
+		if id == "C12" {
+			scs = c12All("thorough")
+		} else if f := layerByProp[id]; f != nil {
+			scs = f()
+		}
+		for _, sc := range scs {
+			if only != "" && sc.Name != only {
+				continue
+			}
+			lo := 1
+			if only != "" {
+				lo = 2 // a cold process is for the concurrent first use
+			}
+			for th := lo; th <= 16; th++ {
 				c := sc.Call
 				c.Threads = th
 				var buf bytes.Buffer
